@@ -100,7 +100,7 @@ impl ExclusiveExtractor for WebsocketUpgrade {
             .get(header::CONNECTION)
             .and_then(|hv| hv.to_str().ok())
             .map(|hv| {
-                hv.split(|c| c == ',' || c == ' ')
+                hv.split(|c| c == ',' || c == ' ' || c == '\t')
                     .any(|vs| vs.eq_ignore_ascii_case("upgrade"))
             })
             .unwrap_or(false)
@@ -116,7 +116,7 @@ impl ExclusiveExtractor for WebsocketUpgrade {
             .get(header::UPGRADE)
             .and_then(|v| v.to_str().ok())
             .map(|v| {
-                v.split(|c| c == ',' || c == ' ')
+                v.split(|c| c == ',' || c == ' ' || c == '\t')
                     .any(|v| v.eq_ignore_ascii_case("websocket"))
             })
             .unwrap_or(false)
